@@ -3,7 +3,7 @@
    Parts 2 and 3 (reflection over the tables and database cases of the working tree): Properties_C12_X86.v, Properties_C12_A64.v.
    Statements only; proofs are in coq/theories/RwInfo/*Proofs.v. *)
 From Coq Require Import NArith ZArith List Bool.
-From Verif Require Import RwInfo.RwModel RwInfo.FeatModel RwInfo.RwSpec RwInfo.RwProofs RwInfo.RegWrite RwInfo.RegWriteProofs RwInfo.A64RwModel RwInfo.A64RwProofs RwInfo.FeatProofs RwInfo.BridgeC05 RwInfo.FrameProofs RegAlloc.RwRuleModel RegAlloc.RwRuleProofs.
+From Verif Require Import RwInfo.RwModel RwInfo.FeatModel RwInfo.RwSpec RwInfo.RwProofs RwInfo.RegWrite RwInfo.RegWriteProofs RwInfo.A64RwModel RwInfo.A64RwProofs RwInfo.FeatProofs RwInfo.BridgeC05 RwInfo.FrameProofs RwInfo.CompleteProofs RwInfo.TopLevelProofs RegAlloc.RwRuleModel RegAlloc.RwRuleProofs.
 Import ListNotations.
 Local Open Scope N_scope.
 
@@ -264,3 +264,473 @@ Proof. exact legacy_vec_no_extension_beyond_register. Qed.
 Print Assumptions C12_legacy_sse_keeps_upper_bits.
 Example C12_legacy_sse_keeps_upper_bits_nonvacuous : reg_group 11 = grp_vec /\ not64 (lsb_mask (N.min (reg_size 11) 64)) <> 0.
 Proof. split; [reflexivity | discriminate]. Qed.
+
+
+(* ==================================================================== round 6: completeness directions, whole-function frames *)
+
+(* query_features never invents an extension: for every table, instruction and operand tuple, each reported id is one of the non-zero
+   entries of the instruction's own feature record (the operand-dependent refinement only removes alternatives). *)
+Theorem C12_features_only_from_record : forall T C q rep x,
+  query_features T C q = Some rep -> In x rep ->
+  In x (ad_feat (nthN (t_addl T) (ir_addl (nthN (t_inst T) (q_id q) d_inst)) d_addl)) /\ x <> 0.
+Proof. exact query_features_subset_of_record. Qed.
+Print Assumptions C12_features_only_from_record.
+
+(* vpternlog, both directions: the two nibbles of the predicate are equal (the condition under which the model - and the code - drop the
+   read of the destination) EXACTLY when no result bit depends on the destination bit.  C12_ternlog_dest_unused was the "if" half. *)
+Theorem C12_ternlog_read_dropped_iff_unused : forall imm, imm < 256 ->
+  (N.shiftr imm 4 = N.land imm 15 <-> forall a b c, ternlog imm a b c = ternlog imm (negb a) b c).
+Proof. exact ternlog_unused_iff. Qed.
+Print Assumptions C12_ternlog_read_dropped_iff_unused.
+Theorem C12_ternlog_dest_used_otherwise : forall imm, imm < 256 -> N.shiftr imm 4 <> N.land imm 15 ->
+  exists b c, ternlog imm false b c <> ternlog imm true b c.
+Proof. exact ternlog_dest_used. Qed.
+Print Assumptions C12_ternlog_dest_used_otherwise.
+Example C12_ternlog_both_directions_nonvacuous :
+  (N.shiftr 0xF0 4 = N.land 0xF0 15 -> False) /\ N.shiftr 0x55 4 = N.land 0x55 15 /\ ternlog 0xF0 false true true <> ternlog 0xF0 true true true.
+Proof. repeat split; vm_compute; congruence. Qed.
+
+(* implicit call shapes (div ecx, cmpxchg ebx, ecx ...): when the operands are matched against a record with fixed registers, there is
+   one entry per operand, every chosen entry lies inside the record and is NOT a fixed one, no entry is used twice and at least one
+   fixed entry was skipped. *)
+Theorem C12_implicit_map_spec : forall T row nops m,
+  implicit_map T row nops = Some m ->
+  length m = nops /\ (forall i, In i m -> (i < entry_count row)%nat /\ fixed_entry T row i = false) /\
+  (length m < entry_count row)%nat /\ NoDup m.
+Proof. exact implicit_map_spec. Qed.
+Print Assumptions C12_implicit_map_spec.
+
+(* Whole generic path (all of: movss/movsd and pextrw special cases, rm_feature, reg/mem marking with the single-candidate rule, the
+   vpternlog idiom, {k} masking): none of the post-passes changes a write mask, a fixed-register id or a consecutive-lead count, exactly one
+   record per operand comes out, and only movss/movsd may touch an extend mask.  [generic_base] is the per-operand function the earlier
+   theorems speak about, so they now hold for what query_rw_info RETURNS. *)
+Theorem C12_generic_post_passes_frame : forall T q vexlike row omap rm av out0,
+  let out := generic T q vexlike row omap rm av out0 in
+  length (i_ops out) = length (q_ops q) /\
+  map o_w (i_ops out) = map o_w (generic_base T q vexlike row omap) /\
+  map o_phys (i_ops out) = map o_phys (generic_base T q vexlike row omap) /\
+  map o_clc (i_ops out) = map o_clc (generic_base T q vexlike row omap) /\
+  (test (rm_flags rm) rmFlagMovssMovsd = false -> map o_e (i_ops out) = map o_e (generic_base T q vexlike row omap)).
+Proof.
+  intros. subst out. split; [apply generic_one_record_per_operand|]. split; [apply generic_keeps_write_masks|].
+  split; [apply generic_keeps_phys_ids|]. split; [apply generic_keeps_lead_counts | apply generic_keeps_extend_masks].
+Qed.
+Print Assumptions C12_generic_post_passes_frame.
+
+(* ... in particular the masks RETURNED for a written general-purpose register operand (any position, any other operands, options, {k},
+   reg/mem record) are the architectural ones of C12_gp_bytes_exact. *)
+Theorem C12_whole_path_gp_masks : forall T q vexlike row omap rm av out0 i (d : gp_dest) id,
+  (i < length (q_ops q))%nat -> nth i (q_ops q) ONone = OReg (gp_regtype d) id ->
+  let dsc := nthN (t_op T) (nth (nth i omap i) (rr_ops row) 0) d_op in
+  test (clear (or_flags dsc) fZExt) fW = true -> or_w dsc = 0 ->
+  let o := nth i (i_ops (generic T q vexlike row omap rm av out0)) op_zero in
+  o_w o = o_w (reported_gp (q_arch64 q) d (dest_size d)) /\
+  (test (rm_flags rm) rmFlagMovssMovsd = false -> o_e o = o_e (reported_gp (q_arch64 q) d (dest_size d))).
+Proof.
+  intros T q vexlike row omap rm av out0 i d id Hi Hop dsc HW Hw o. subst o. split.
+  - apply (generic_whole_path_gp_write_mask T q vexlike row omap rm av out0 i d id Hi Hop HW Hw).
+  - intros Hm. apply (generic_whole_path_gp_extend_mask T q vexlike row omap rm av out0 i d id Hi Hop Hm HW Hw).
+Qed.
+Print Assumptions C12_whole_path_gp_masks.
+
+(* C12_generic_path_vec_masks without its hypothesis on rw_reg_group_byte_mask_table: for EVERY table the write mask of a VEX/EVEX vector
+   destination is the architectural one and every byte reported as extended is one the write really zeroes (C12_vec_bytes_exact_vex);
+   the reported extension is the architectural one intersected with the table's entry. *)
+Theorem C12_generic_path_vec_masks_any_table : forall T native row i rt id,
+  In rt [11; 12; 13] ->
+  let dsc := nthN (t_op T) (nth i (rr_ops row) 0) d_op in
+  test (clear (or_flags dsc) fZExt) fW = true -> or_w dsc = 0 -> test (or_flags dsc) fZExt = true ->
+  let o := generic_op T native row i (OReg rt id) in
+  o_w o = o_w (reported_vec (N.to_nat (reg_size rt))) /\
+  o_e o = N.land (o_e (reported_vec (N.to_nat (reg_size rt)))) (group_byte_mask T grp_vec) /\
+  (forall b, N.testbit (o_e o) b = true -> N.testbit (o_e (reported_vec (N.to_nat (reg_size rt)))) b = true).
+Proof.
+  intros T native row i rt id Hrt dsc HW Hw HZ o. subst o.
+  destruct (generic_op_vec_masks_any_table T native row i rt id Hrt HW Hw HZ) as [A B].
+  split; [exact A|]. split; [exact B|]. intros b. apply (generic_op_vec_extension_sound T native row i rt id b Hrt HW Hw HZ).
+Qed.
+Print Assumptions C12_generic_path_vec_masks_any_table.
+
+
+(* ---------------------------------------------------------------- top level: statements about what query_rw_info RETURNS *)
+
+(* Whenever query_rw_info succeeds - generic path or any special category, any table, any operand tuple - it returns exactly one operand
+   record per operand given.  Same for AArch64. *)
+Theorem C12_one_record_per_operand : forall T q out, query_rw_info T q = Some out -> length (i_ops out) = length (q_ops q).
+Proof. exact query_rw_info_one_record_per_operand. Qed.
+Print Assumptions C12_one_record_per_operand.
+Theorem C12_a64_one_record_per_operand : forall T id ops out, a64_query_rw_info T id ops = Some out -> length (i_ops out) = length ops.
+Proof. exact a64_one_record_per_operand. Qed.
+Print Assumptions C12_a64_one_record_per_operand.
+
+(* What query_rw_info returns for a memory operand never carries an extend mask: every table, every tuple, generic path and every special
+   category except kCategoryImul (its code zero-extends its leading operands without looking at their kind; only registers are valid there). *)
+Theorem C12_memory_never_extended_top_level : forall T q out i sz b x,
+  query_rw_info T q = Some out -> selected_category T q <> 4 -> nth i (q_ops q) ONone = OMem sz b x ->
+  o_e (nth i (i_ops out) op_zero) = 0.
+Proof. exact query_rw_info_memory_never_extended. Qed.
+Print Assumptions C12_memory_never_extended_top_level.
+
+(* Through all post-passes an extend mask is kept or cleared, never grown; every flag other than kRead / kRegMem of every operand is the
+   per-operand function's; hence an operand is RETURNED as written exactly when its table entry says so. *)
+Theorem C12_post_passes_extend_and_flags : forall T q vexlike row omap rm av out0 i, (i < length (q_ops q))%nat ->
+  let o := nth i (i_ops (generic T q vexlike row omap rm av out0)) op_zero in
+  let o0 := generic_op_v T vexlike (native_gp_size (q_arch64 q)) row (nth i omap i) (nth i (q_ops q) ONone) in
+  (o_e o = o_e o0 \/ o_e o = 0) /\ test (o_flags o) fW = test (o_flags o0) fW /\
+  map other_flags (i_ops (generic T q vexlike row omap rm av out0)) = map other_flags (generic_base T q vexlike row omap).
+Proof.
+  intros T q vexlike row omap rm av out0 i Hi o o0. subst o o0. split; [|split].
+  - apply (generic_extend_mask_kept_or_cleared T q vexlike row omap rm av out0 i Hi).
+  - apply generic_write_flag_of_operand. exact Hi.
+  - apply generic_keeps_other_flags.
+Qed.
+Print Assumptions C12_post_passes_extend_and_flags.
+
+(* Whole path, vector registers.  Legacy SSE (movss/movsd included): nothing beyond the register is returned as extended.  VEX/EVEX/XOP:
+   every byte returned as extended is one the write really zeroes - for every table. *)
+Theorem C12_whole_path_legacy_sse : forall T q row omap rm av out0 i rt id,
+  (i < length (q_ops q))%nat -> nth i (q_ops q) ONone = OReg rt id -> reg_group rt = grp_vec ->
+  N.land (o_e (nth i (i_ops (generic T q false row omap rm av out0)) op_zero)) (not64 (lsb_mask (N.min (reg_size rt) 64))) = 0.
+Proof. exact generic_whole_path_legacy_vec. Qed.
+Print Assumptions C12_whole_path_legacy_sse.
+Theorem C12_whole_path_vex_extension_sound : forall T q row omap rm av out0 i rt id b,
+  (i < length (q_ops q))%nat -> nth i (q_ops q) ONone = OReg rt id -> In rt [11; 12; 13] ->
+  let dsc := nthN (t_op T) (nth (nth i omap i) (rr_ops row) 0) d_op in
+  test (clear (or_flags dsc) fZExt) fW = true -> or_w dsc = 0 -> test (or_flags dsc) fZExt = true ->
+  N.testbit (o_e (nth i (i_ops (generic T q true row omap rm av out0)) op_zero)) b = true ->
+  N.testbit (o_e (reported_vec (N.to_nat (reg_size rt)))) b = true.
+Proof. exact generic_whole_path_vex_vec_sound. Qed.
+Print Assumptions C12_whole_path_vex_extension_sound.
+
+(* query_rw_info itself (not a piece of it): when the selected record is a generic one the result IS the generic path's, and the masks
+   returned for a written general-purpose register operand are the architectural ones of C12_gp_bytes_exact. *)
+Theorem C12_query_rw_info_gp_masks : forall T q out i (d : gp_dest) id,
+  query_rw_info T q = Some out -> selected_category T q <= 1 ->
+  (i < length (q_ops q))%nat -> nth i (q_ops q) ONone = OReg (gp_regtype d) id ->
+  let ro := select_row T (nthN (t_inst T) (q_id q) d_inst) (length (q_ops q)) in
+  let dsc := nthN (t_op T) (nth (nth i (snd ro) i) (rr_ops (fst ro)) 0) d_op in
+  test (clear (or_flags dsc) fZExt) fW = true -> or_w dsc = 0 ->
+  o_w (nth i (i_ops out) op_zero) = o_w (reported_gp (q_arch64 q) d (dest_size d)) /\
+  (test (rm_flags (nthN (t_rm T) (rr_rm (fst ro)) d_rm)) rmFlagMovssMovsd = false ->
+   o_e (nth i (i_ops out) op_zero) = o_e (reported_gp (q_arch64 q) d (dest_size d))).
+Proof. exact query_rw_info_gp_masks. Qed.
+Print Assumptions C12_query_rw_info_gp_masks.
+
+
+(* ---------------------------------------------------------------- AArch64 by-element operands (v1.s[2]): masks = the element's bytes *)
+(* arithmetic meaning of the mask a64 query_rw_info computes, for element sizes 1/2/4/8 bytes, every index and every byte below 64 *)
+Theorem C12_a64_element_mask_is_the_element : forall es idx b, In es [1; 2; 4; 8] -> idx < 64 -> b < 64 ->
+  N.testbit (a64_elem_access es idx) b = (idx * es <=? b) && (b <? idx * es + es).
+Proof. exact a64_elem_access_spec. Qed.
+Print Assumptions C12_a64_element_mask_is_the_element.
+
+(* and the model (every table, every tuple, non-list instructions): a by-element register operand whose table entry says "written" is
+   returned with a write mask that holds byte b exactly when b lies in element idx; nothing else of the register is reported written *)
+Theorem C12_a64_by_element_write_mask : forall T id ops out i et idx b,
+  a64_query_rw_info T id ops = Some out -> (i < length ops)%nat -> nth i ops ANone = AReg (Some (et, idx)) ->
+  let row := nthN (at_inst T) (N.land id (at_real_id_mask T)) {| ai_rw := 0; ai_flags := 0 |} in
+  (test (ai_flags row) (at_consecutive T) && Nat.ltb 2 (length ops)) = false ->
+  test (clear (nth i (nthN (at_rwx T) (ai_rw row) []) 0) fZExt) fW = true ->
+  let es := nthN (at_elem_size T) et 0 in
+  In es [1; 2; 4; 8] -> idx < 64 -> b < 64 ->
+  N.testbit (o_w (nth i (i_ops out) op_zero)) b = (idx * es <=? b) && (b <? idx * es + es).
+Proof.
+  intros T id ops out i et idx b H Hi Hop row Hc HW es He Hx Hb.
+  destruct (a64_by_element_masks T id ops out i et idx H Hi Hop Hc) as [_ W]. rewrite W. clear W.
+  unfold a64_base_op. cbv zeta. cbn [o_w]. fold row. rewrite HW. fold es.
+  rewrite N.land_spec. rewrite (a64_elem_access_spec es idx b He Hx Hb).
+  replace (N.testbit ones64 b) with true; [reflexivity|].
+  symmetry. change ones64 with (N.ones 64). apply N.ones_spec_low. exact Hb.
+Qed.
+Print Assumptions C12_a64_by_element_write_mask.
+
+
+(* Source operands: every operand after the first is RETURNED by the generic path exactly as its table entry made it - flags, read and write
+   masks, extend mask, fixed-register id, lead count - except that the reg/mem pass may add kRegMem with the memory size; with {er} (embedded
+   rounding) even that is excluded.  In particular the read mask of a source is the table's. *)
+Theorem C12_source_operands_returned_as_tabled : forall T q vexlike row omap rm av out0 i, (1 <= i < length (q_ops q))%nat ->
+  let o := nth i (i_ops (generic T q vexlike row omap rm av out0)) op_zero in
+  let o0 := generic_op_v T vexlike (native_gp_size (q_arch64 q)) row (nth i omap i) (nth i (q_ops q) ONone) in
+  (o = o0 \/ (test (q_options q) optER = false /\ (o = add_flags o0 fRegM \/ exists s, o = set_rmsize (add_flags o0 fRegM) s))) /\
+  o_r o = o_r o0 /\ o_w o = o_w o0 /\ o_e o = o_e o0.
+Proof.
+  intros T q vexlike row omap rm av out0 i Hi o o0.
+  pose proof (generic_source_operands T q vexlike row omap rm av out0 i Hi) as H. cbv zeta in H. fold o o0 in H.
+  split; [exact H|].
+  destruct H as [-> | [_ [-> | [s ->]]]]; repeat split; reflexivity.
+Qed.
+Print Assumptions C12_source_operands_returned_as_tabled.
+
+
+(* The reg/mem pass, all of it (candidate mask from the RWInfoRm record, the single-candidate rule of moves between register files and of
+   three-operand forms, {er}): a source operand is RETURNED different from its table entry (i.e. marked kRegMem) only if it is a REGISTER
+   operand and the instruction has no embedded rounding - for every table and every operand tuple.  (The database-wide C12_rm_replaceable
+   says the claim is then true; this says it is never made on anything else.) *)
+Theorem C12_regmem_only_on_registers : forall T q vexlike row omap rm av out0 i, (1 <= i < length (q_ops q))%nat ->
+  let o := nth i (i_ops (generic T q vexlike row omap rm av out0)) op_zero in
+  let o0 := generic_op_v T vexlike (native_gp_size (q_arch64 q)) row (nth i omap i) (nth i (q_ops q) ONone) in
+  o <> o0 -> is_reg (nth i (q_ops q) ONone) = true /\ test (q_options q) optER = false.
+Proof. exact generic_regmem_only_on_registers. Qed.
+Print Assumptions C12_regmem_only_on_registers.
+
+
+(* {k} merge-masking, whole generic path: under a {k} mask without {z}, on an instruction that is not implicitly zeroing, operand 0 is RETURNED
+   as read with a read mask covering its write mask, and {k} itself as read (C12_masking_reads_dst: merging really depends on the old value). *)
+Theorem C12_merge_masking_whole_path : forall T q vexlike row omap rm av out0,
+  q_extra_mask q = true -> test (q_options q) optZMask = false -> test av kImplicitZ = false -> (0 < length (q_ops q))%nat ->
+  let out := generic T q vexlike row omap rm av out0 in
+  let o := nth 0 (i_ops out) op_zero in
+  test (o_flags o) fR = true /\ N.land (o_w o) (o_r o) = o_w o /\ test (o_flags (i_extra out)) fR = true.
+Proof. exact generic_merge_masking_reads_destination. Qed.
+Print Assumptions C12_merge_masking_whole_path.
+
+(* Completeness of reads: the generic path never drops a read its table entry announces, except on operand 0 of vpternlogd/q with an immediate
+   whose two nibbles are equal - and then (C12_ternlog_read_dropped_iff_unused) no result bit depends on the destination.  (Operands after
+   the first: C12_source_operands_returned_as_tabled.) *)
+Theorem C12_read_dropped_only_when_unused : forall T q vexlike row omap rm av out0, (0 < length (q_ops q))%nat ->
+  test (o_flags (generic_op_v T vexlike (native_gp_size (q_arch64 q)) row (nth 0 omap 0%nat) (nth 0 (q_ops q) ONone))) fR = true ->
+  test (o_flags (nth 0 (i_ops (generic T q vexlike row omap rm av out0)) op_zero)) fR = false ->
+  rr_cat row = 1 /\ existsb (N.eqb (q_id q)) (t_ternlog T) = true /\ length (q_ops q) = 4%nat /\
+  exists v, opn (q_ops q) 3 = OImm v /\
+            forall a b c, ternlog (Z.to_N (Z.land v 255)) a b c = ternlog (Z.to_N (Z.land v 255)) (negb a) b c.
+Proof.
+  intros T q vexlike row omap rm av out0 Hl HB HF.
+  destruct (generic_read_dropped_only_by_ternlog T q vexlike row omap rm av out0 Hl HB HF) as [C1 [C2 [C3 [v [C4 C5]]]]].
+  split; [exact C1|]. split; [exact C2|]. split; [exact C3|]. exists v. split; [exact C4|].
+  apply ternlog_unused_iff; [apply land255_lt | exact C5].
+Qed.
+Print Assumptions C12_read_dropped_only_when_unused.
+
+
+(* ... and operand 0 (whose kRead may be touched by masking / the vpternlog idiom, so the statement is about the flag): it is returned with
+   kRegMem although its table entry has none only if it is a register operand and there is no {er}.  Together with
+   C12_regmem_only_on_registers: the generic path never makes a reg/mem claim on a memory operand, an immediate, or under embedded rounding. *)
+Theorem C12_regmem_operand0_only_on_register : forall T q vexlike row omap rm av out0, (0 < length (q_ops q))%nat ->
+  test (o_flags (generic_op_v T vexlike (native_gp_size (q_arch64 q)) row (nth 0 omap 0%nat) (nth 0 (q_ops q) ONone))) fRegM = false ->
+  test (o_flags (nth 0 (i_ops (generic T q vexlike row omap rm av out0)) op_zero)) fRegM = true ->
+  is_reg (nth 0 (q_ops q) ONone) = true /\ test (q_options q) optER = false.
+Proof. exact generic_regmem_operand0. Qed.
+Print Assumptions C12_regmem_operand0_only_on_register.
+
+(* ==================================================================== round 6, second part *)
+
+(* query_rw_info itself, legacy SSE: for an instruction that is not VEX/EVEX/XOP encoded and whose selected record is generic, the result
+   never extends a vector register operand beyond the register (movss/movsd included). *)
+Theorem C12_query_rw_info_legacy_sse : forall T q out i rt id,
+  query_rw_info T q = Some out -> selected_category T q <= 1 ->
+  test (ir_cflags (nthN (t_inst T) (q_id q) d_inst)) (t_vex_flags T) = false ->
+  (i < length (q_ops q))%nat -> nth i (q_ops q) ONone = OReg rt id -> reg_group rt = grp_vec ->
+  N.land (o_e (nth i (i_ops out) op_zero)) (not64 (lsb_mask (N.min (reg_size rt) 64))) = 0.
+Proof. exact query_rw_info_legacy_vec. Qed.
+Print Assumptions C12_query_rw_info_legacy_sse.
+
+(* query_rw_info itself, reg/mem claims at every operand position: kRegMem that the table entry does not already carry is returned only for
+   a register operand and never with {er}. *)
+Theorem C12_query_rw_info_regmem_only_on_registers : forall T q out i,
+  query_rw_info T q = Some out -> selected_category T q <= 1 -> (i < length (q_ops q))%nat ->
+  let ro := select_row T (nthN (t_inst T) (q_id q) d_inst) (length (q_ops q)) in
+  let o0 := generic_op_v T (test (ir_cflags (nthN (t_inst T) (q_id q) d_inst)) (t_vex_flags T)) (native_gp_size (q_arch64 q))
+                         (fst ro) (nth i (snd ro) i) (nth i (q_ops q) ONone) in
+  test (o_flags o0) fRegM = false -> test (o_flags (nth i (i_ops out) op_zero)) fRegM = true ->
+  is_reg (nth i (q_ops q) ONone) = true /\ test (q_options q) optER = false.
+Proof. exact query_rw_info_regmem_only_on_registers. Qed.
+Print Assumptions C12_query_rw_info_regmem_only_on_registers.
+
+(* query_features answers every valid instruction id. *)
+Theorem C12_features_total : forall T C q, q_id q < N.of_nat (length (t_inst T)) -> exists rep, query_features T C q = Some rep.
+Proof. exact query_features_total. Qed.
+Print Assumptions C12_features_total.
+
+(* kCategoryMov beyond register moves: a load (not the moffs64 form) and an immediate move return the architectural masks of
+   C12_gp_bytes_exact for the destination, the destination is not read, the memory operand is read in the register's size. *)
+Theorem C12_mov_load_and_immediate : forall mode64 (d : gp_dest) id opt k out,
+  (forall sz b x, b <> 0 ->
+     exists o0 o1, option_map i_ops (cat_mov {| q_arch64 := mode64; q_id := 0; q_options := opt; q_extra_mask := k;
+                                                q_ops := [OReg (gp_regtype d) id; OMem sz b x] |} out) = Some [o0; o1] /\
+       o_w o0 = o_w (reported_gp mode64 d (dest_size d)) /\ o_e o0 = o_e (reported_gp mode64 d (dest_size d)) /\
+       o_r o0 = 0 /\ o_w o1 = 0 /\ o_e o1 = 0 /\ o_r o1 = lsb_mask (reg_size (gp_regtype d))) /\
+  (forall v,
+     exists o0, option_map i_ops (cat_mov {| q_arch64 := mode64; q_id := 0; q_options := opt; q_extra_mask := k;
+                                             q_ops := [OReg (gp_regtype d) id; OImm v] |} out) = Some [o0; op_zero] /\
+       o_w o0 = o_w (reported_gp mode64 d (dest_size d)) /\ o_e o0 = o_e (reported_gp mode64 d (dest_size d)) /\ o_r o0 = 0).
+Proof.
+  intros mode64 d id opt k out. split.
+  - intros sz b x Hb. apply (cat_mov_load_masks mode64 d id sz b x opt k out Hb).
+  - intros v. apply (cat_mov_imm_masks mode64 d id v opt k out).
+Qed.
+Print Assumptions C12_mov_load_and_immediate.
+
+(* kCategoryMovh64 (movhps / movhpd): the load writes exactly bytes 8..15 of the register, extends nothing and does not read it; the store
+   reads exactly bytes 8..15. *)
+Theorem C12_movh64_touches_the_high_half : forall rt id sz b x mode64 opt k out, reg_group rt = grp_vec ->
+  (exists o0 o1, option_map i_ops (cat_movh64 {| q_arch64 := mode64; q_id := 0; q_options := opt; q_extra_mask := k;
+                                                  q_ops := [OReg rt id; OMem sz b x] |} out) = Some [o0; o1] /\
+     o_w o0 = 65280 /\ o_e o0 = 0 /\ o_r o0 = 0 /\ o_r o1 = 255 /\ o_w o1 = 0) /\
+  (exists o0 o1, option_map i_ops (cat_movh64 {| q_arch64 := mode64; q_id := 0; q_options := opt; q_extra_mask := k;
+                                                  q_ops := [OMem sz b x; OReg rt id] |} out) = Some [o0; o1] /\
+     o_w o0 = 255 /\ o_r o1 = 65280 /\ o_w o1 = 0 /\ o_e o1 = 0).
+Proof. exact cat_movh64_masks. Qed.
+Print Assumptions C12_movh64_touches_the_high_half.
+
+(* PUNPCKL{BW,WD,DQ,QDQ} (kCategoryPunpcklxx): mini-semantics [punpckl] (interleave the low halves).  The result depends on the low half of
+   each operand ONLY, and on EVERY byte of those halves; the model reports exactly lsb_mask (n/2) as read mask of both operands and the
+   whole register as written. *)
+Theorem C12_punpckl_reads_exactly_the_low_halves : forall es n, In (es, n) punpckl_shapes ->
+  (forall a a' b b', (forall k, (k < n / 2)%nat -> byte_at a k = byte_at a' k) -> (forall k, (k < n / 2)%nat -> byte_at b k = byte_at b' k) ->
+     punpckl es n a b = punpckl es n a' b') /\
+  (forall a b k, (k < n / 2)%nat ->
+     (exists j, (j < n)%nat /\ byte_at (punpckl es n a b) j = byte_at a k) /\ (exists j, (j < n)%nat /\ byte_at (punpckl es n a b) j = byte_at b k)).
+Proof.
+  intros es n Hs. split.
+  - intros a a' b b'. apply punpckl_reads_low_halves_only. exact Hs.
+  - intros a b k Hk. apply punpckl_reads_every_low_byte; assumption.
+Qed.
+Print Assumptions C12_punpckl_reads_exactly_the_low_halves.
+Theorem C12_punpckl_reported_masks : forall id1 id2 mode64 opt k out,
+  (exists o0 o1, option_map i_ops (cat_punpcklxx {| q_arch64 := mode64; q_id := 0; q_options := opt; q_extra_mask := k;
+                                                     q_ops := [OReg rt_vec128 id1; OReg rt_vec128 id2] |} out) = Some [o0; o1] /\
+     o_r o0 = lsb_mask 8 /\ o_w o0 = lsb_mask 16 /\ o_r o1 = lsb_mask 8 /\ o_w o1 = 0 /\ o_e o0 = 0) /\
+  (exists o0 o1, option_map i_ops (cat_punpcklxx {| q_arch64 := mode64; q_id := 0; q_options := opt; q_extra_mask := k;
+                                                     q_ops := [OReg rt_mm id1; OReg rt_mm id2] |} out) = Some [o0; o1] /\
+     o_r o0 = lsb_mask 4 /\ o_w o0 = lsb_mask 8 /\ o_r o1 = lsb_mask 4 /\ o_w o1 = 0 /\ o_e o0 = 0).
+Proof. exact cat_punpcklxx_masks. Qed.
+Print Assumptions C12_punpckl_reported_masks.
+Example C12_punpckl_nonvacuous :
+  punpckl 1 8 [1; 2; 3; 4; 5; 6; 7; 8] [11; 12; 13; 14; 15; 16; 17; 18] = [1; 11; 2; 12; 3; 13; 4; 14] /\
+  punpckl 4 16 (map N.of_nat (seq 0 16)) (map N.of_nat (seq 100 16)) = [0; 1; 2; 3; 100; 101; 102; 103; 4; 5; 6; 7; 104; 105; 106; 107].
+Proof. split; vm_compute; reflexivity. Qed.
+
+(* kCategoryVmov1_2 / 1_4 / 1_8, register forms without {k}: destination masks = those of an n-byte VEX/EVEX result write (C12_vec_bytes_exact),
+   n = source size >> shift; the source is read in full. *)
+Theorem C12_narrowing_moves_masks : forall ta tb ida idb shift rm av mode64 opt out,
+  In ta [11; 12; 13] -> In tb [11; 12; 13] -> In shift [1; 2; 3] ->
+  let q := {| q_arch64 := mode64; q_id := 0; q_options := opt; q_extra_mask := false; q_ops := [OReg ta ida; OReg tb idb] |} in
+  exists o0 o1, option_map i_ops (cat_vmov_narrow q shift rm av out) = Some [o0; o1] /\
+    o_w o0 = o_w (reported_avx_vec (N.to_nat (N.shiftr (reg_size tb) shift))) /\
+    o_e o0 = o_e (reported_avx_vec (N.to_nat (N.shiftr (reg_size tb) shift))) /\
+    o_r o0 = 0 /\ o_r o1 = lsb_mask (reg_size tb) /\ o_w o1 = 0 /\ o_e o1 = 0.
+Proof. exact cat_vmov_narrow_masks. Qed.
+Print Assumptions C12_narrowing_moves_masks.
+
+(* AArch64, non-list path: a register operand (plain or by-element) is RETURNED as read / written exactly when its table entry says so. *)
+Theorem C12_a64_register_access_is_the_tables : forall T id ops out i el,
+  a64_query_rw_info T id ops = Some out -> (i < length ops)%nat -> nth i ops ANone = AReg el ->
+  let row := nthN (at_inst T) (N.land id (at_real_id_mask T)) {| ai_rw := 0; ai_flags := 0 |} in
+  (test (ai_flags row) (at_consecutive T) && Nat.ltb 2 (length ops)) = false ->
+  let e := clear (nth i (nthN (at_rwx T) (ai_rw row) []) 0) fZExt in
+  test (o_flags (nth i (i_ops out) op_zero)) fR = test e fR /\ test (o_flags (nth i (i_ops out) op_zero)) fW = test e fW.
+Proof. exact a64_register_access_flags_from_table. Qed.
+Print Assumptions C12_a64_register_access_is_the_tables.
+
+(* AArch64: immediates and absent operands are returned as the all-zero record (non-list, non-tbl instructions). *)
+Theorem C12_a64_non_register_operands_silent : forall T id ops out i,
+  a64_query_rw_info T id ops = Some out -> (i < length ops)%nat -> a_is_reg_or_mem (nth i ops ANone) = false ->
+  let row := nthN (at_inst T) (N.land id (at_real_id_mask T)) {| ai_rw := 0; ai_flags := 0 |} in
+  (test (ai_flags row) (at_consecutive T) && Nat.ltb 2 (length ops)) = false ->
+  existsb (N.eqb (N.land id (at_real_id_mask T))) (at_tbl_ids T) = false ->
+  nth i (i_ops out) op_zero = op_zero.
+Proof. exact a64_non_regmem_silent. Qed.
+Print Assumptions C12_a64_non_register_operands_silent.
+
+
+(* kCategoryVmovmskps/pd, 32-bit destination: masks of a 1-byte result zero-extended into r32 (C12_gp_bytes_exact_zero_extended_x64/_x86). *)
+Theorem C12_vmovmsk_masks : forall mode64 id1 tb id2 opt k out, In tb [11; 12] ->
+  let q := {| q_arch64 := mode64; q_id := 0; q_options := opt; q_extra_mask := k; q_ops := [OReg (gp_regtype D32) id1; OReg tb id2] |} in
+  exists o0 o1, option_map i_ops (cat_vmovmsk q out) = Some [o0; o1] /\
+    o_w o0 = o_w (reported_gp mode64 D32 1) /\ o_e o0 = o_e (reported_gp mode64 D32 1) /\ o_r o0 = 0 /\
+    o_r o1 = lsb_mask (reg_size tb) /\ o_w o1 = 0.
+Proof. exact cat_vmovmsk_masks. Qed.
+Print Assumptions C12_vmovmsk_masks.
+
+(* kCategoryVmov2_1 / 4_1 / 8_1, register forms without {k}: destination written in full with the VEX/EVEX extension, source read in its low
+   (destination size >> shift) bytes only. *)
+Theorem C12_widening_moves_masks : forall ta tb ida idb shift rm av mode64 opt out,
+  In ta [11; 12; 13] -> In tb [11; 12; 13] -> In shift [1; 2; 3] ->
+  let q := {| q_arch64 := mode64; q_id := 0; q_options := opt; q_extra_mask := false; q_ops := [OReg ta ida; OReg tb idb] |} in
+  exists o0 o1, option_map i_ops (cat_vmov_widen q shift rm av out) = Some [o0; o1] /\
+    o_w o0 = o_w (reported_avx_vec (N.to_nat (reg_size ta))) /\ o_e o0 = o_e (reported_avx_vec (N.to_nat (reg_size ta))) /\
+    o_r o0 = 0 /\ o_r o1 = lsb_mask (N.shiftr (reg_size ta) shift) /\ o_w o1 = 0 /\ o_e o1 = 0.
+Proof. exact cat_vmov_widen_masks. Qed.
+Print Assumptions C12_widening_moves_masks.
+
+(* (V)MOVDDUP, mini-semantics [movddup] (every even quadword duplicated): for the 256/512-bit forms the result depends on the source bytes
+   selected by 0x00FF00FF00FF00FF ONLY and on EVERY one of them; the model reports exactly those bytes (inside the register) as read. *)
+Theorem C12_movddup_reads_exactly_the_even_quadwords : forall n, In n [32; 64]%nat ->
+  (forall s s', (forall k, (k < n)%nat -> N.testbit ddup_pattern (N.of_nat k) = true -> byte_at s k = byte_at s' k) -> movddup n s = movddup n s') /\
+  (forall s k, (k < n)%nat -> N.testbit ddup_pattern (N.of_nat k) = true -> exists j, (j < n)%nat /\ byte_at (movddup n s) j = byte_at s k).
+Proof.
+  intros n Hn. split.
+  - intros s s'. apply movddup_reads_pattern_only. exact Hn.
+  - intros s k. apply movddup_reads_every_pattern_byte. exact Hn.
+Qed.
+Print Assumptions C12_movddup_reads_exactly_the_even_quadwords.
+Theorem C12_vmovddup_reported_masks : forall tb ida idb av mode64 opt out, In tb [11; 12; 13] ->
+  let q := {| q_arch64 := mode64; q_id := 0; q_options := opt; q_extra_mask := false; q_ops := [OReg tb ida; OReg tb idb] |} in
+  exists o0 o1, option_map i_ops (cat_vmovddup q av out) = Some [o0; o1] /\
+    o_w o0 = o_w (reported_avx_vec (N.to_nat (reg_size tb))) /\ o_e o0 = o_e (reported_avx_vec (N.to_nat (reg_size tb))) /\ o_r o0 = 0 /\
+    o_r o1 = (if reg_size tb =? 16 then lsb_mask 8 else N.land (lsb_mask (reg_size tb)) ddup_pattern) /\ o_w o1 = 0.
+Proof. exact cat_vmovddup_masks. Qed.
+Print Assumptions C12_vmovddup_reported_masks.
+Example C12_movddup_nonvacuous :
+  movddup 32 (map N.of_nat (seq 0 32)) = [0; 1; 2; 3; 4; 5; 6; 7; 0; 1; 2; 3; 4; 5; 6; 7; 16; 17; 18; 19; 20; 21; 22; 23; 16; 17; 18; 19; 20; 21; 22; 23] /\
+  N.testbit ddup_pattern 0 = true /\ N.testbit ddup_pattern 8 = false /\ N.testbit ddup_pattern 16 = true.
+Proof. repeat split; vm_compute; reflexivity. Qed.
+
+
+(* kCategoryMovabs: the accumulator (fixed register id 0, kRegPhysId) gets the architectural masks; the store form reads it. *)
+Theorem C12_movabs_masks : forall mode64 (d : gp_dest) id sz b x opt k out, d <> D8hi ->
+  (exists o0 o1, option_map i_ops (cat_movabs {| q_arch64 := mode64; q_id := 0; q_options := opt; q_extra_mask := k;
+                                                  q_ops := [OReg (gp_regtype d) id; OMem sz b x] |} out) = Some [o0; o1] /\
+     o_w o0 = o_w (reported_gp mode64 d (dest_size d)) /\ o_e o0 = o_e (reported_gp mode64 d (dest_size d)) /\
+     test (o_flags o0) fRegPhys = true /\ o_phys o0 = gpAx /\ o_r o0 = 0 /\ o_r o1 = lsb_mask (reg_size (gp_regtype d)) /\ o_w o1 = 0) /\
+  (exists o0 o1, option_map i_ops (cat_movabs {| q_arch64 := mode64; q_id := 0; q_options := opt; q_extra_mask := k;
+                                                  q_ops := [OMem sz b x; OReg (gp_regtype d) id] |} out) = Some [o0; o1] /\
+     o_w o0 = lsb_mask (reg_size (gp_regtype d)) /\ o_r o1 = lsb_mask (reg_size (gp_regtype d)) /\ o_w o1 = 0 /\ o_e o1 = 0 /\
+     test (o_flags o1) fRegPhys = true /\ o_phys o1 = gpAx).
+Proof. exact cat_movabs_masks. Qed.
+Print Assumptions C12_movabs_masks.
+
+(* kCategoryImul, imul r, r/m: the destination is read AND written with the architectural masks; the source is read and may be memory. *)
+Theorem C12_imul_two_operand_masks : forall mode64 (d : gp_dest) id1 id2 opt k out, In d [D16; D32; D64] ->
+  let q := {| q_arch64 := mode64; q_id := 0; q_options := opt; q_extra_mask := k; q_ops := [OReg (gp_regtype d) id1; OReg (gp_regtype d) id2] |} in
+  exists o0 o1, option_map i_ops (cat_imul q out) = Some [o0; o1] /\
+    o_w o0 = o_w (reported_gp mode64 d (dest_size d)) /\ o_e o0 = o_e (reported_gp mode64 d (dest_size d)) /\
+    o_r o0 = lsb_mask (reg_size (gp_regtype d)) /\ test (o_flags o0) fR = true /\ test (o_flags o0) fW = true /\
+    o_r o1 = lsb_mask (reg_size (gp_regtype d)) /\ o_w o1 = 0 /\ test (o_flags o1) fRegM = true.
+Proof. exact cat_imul_two_operand_masks. Qed.
+Print Assumptions C12_imul_two_operand_masks.
+
+(* kCategoryVmaskmov: the load writes the whole destination with the VEX extension; the masked STORE reports memory as read AND written
+   (bytes the mask leaves alone keep their old value, so the old memory content is live). *)
+Theorem C12_vmaskmov_masks : forall tv id1 id2 id3 sz b x mode64 opt k out, In tv [11; 12] ->
+  (exists o0 o1 o2, option_map i_ops (cat_vmaskmov {| q_arch64 := mode64; q_id := 0; q_options := opt; q_extra_mask := k;
+                                                      q_ops := [OReg tv id1; OReg tv id2; OMem sz b x] |} out) = Some [o0; o1; o2] /\
+     o_w o0 = o_w (reported_avx_vec (N.to_nat (reg_size tv))) /\ o_e o0 = o_e (reported_avx_vec (N.to_nat (reg_size tv))) /\ o_r o0 = 0 /\
+     o_r o1 = lsb_mask (reg_size tv) /\ o_w o1 = 0 /\ o_r o2 = lsb_mask (reg_size tv) /\ o_w o2 = 0) /\
+  (exists o0 o1 o2, option_map i_ops (cat_vmaskmov {| q_arch64 := mode64; q_id := 0; q_options := opt; q_extra_mask := k;
+                                                      q_ops := [OMem sz b x; OReg tv id2; OReg tv id3] |} out) = Some [o0; o1; o2] /\
+     test (o_flags o0) fR = true /\ test (o_flags o0) fW = true /\ o_r o0 = lsb_mask (reg_size tv) /\ o_w o0 = lsb_mask (reg_size tv) /\ o_e o0 = 0 /\
+     o_r o1 = lsb_mask (reg_size tv) /\ o_w o1 = 0 /\ o_r o2 = lsb_mask (reg_size tv) /\ o_w o2 = 0).
+Proof. exact cat_vmaskmov_masks. Qed.
+Print Assumptions C12_vmaskmov_masks.
+
+
+(* End to end (C12 -> C05): the reading of the byte masks that C05's validator assumes, applied to the masks query_rw_info itself RETURNS for a
+   written low-aligned general-purpose register operand (generic record, no explicit write mask, not movss/movsd), is the architectural result
+   of RegWrite.gp_write - for every table, every operand tuple and position, every old content and value. *)
+Theorem C12_C05_returned_masks_architectural : forall T q out i (d : gp_dest) id old val b,
+  query_rw_info T q = Some out -> selected_category T q <= 1 ->
+  (i < length (q_ops q))%nat -> nth i (q_ops q) ONone = OReg (gp_regtype d) id ->
+  let ro := select_row T (nthN (t_inst T) (q_id q) d_inst) (length (q_ops q)) in
+  let dsc := nthN (t_op T) (nth (nth i (snd ro) i) (rr_ops (fst ro)) 0) d_op in
+  test (clear (or_flags dsc) fZExt) fW = true -> or_w dsc = 0 ->
+  test (rm_flags (nthN (t_rm T) (rr_rm (fst ro)) d_rm)) rmFlagMovssMovsd = false ->
+  d <> D8hi -> bytes_ok old -> bytes_ok val -> (b < 8)%nat ->
+  let o := nth i (i_ops out) op_zero in
+  hw_byte (o_w o) (o_e o) (z_of_bytes old) (z_of_bytes val) b = Z.of_N (byte_at (gp_write (q_arch64 q) d (dest_size d) old val) b).
+Proof.
+  intros T q out i d id old val b H C Hi Hop ro dsc HW Hw Hm Hd Bo Bv Hb o. subst o.
+  destruct (query_rw_info_gp_masks T q out i d id H C Hi Hop HW Hw) as [W E]. rewrite W, (E Hm).
+  apply hw_byte_is_gp_write; assumption.
+Qed.
+Print Assumptions C12_C05_returned_masks_architectural.
